@@ -7,7 +7,7 @@
      LEN comp seg frac | lengths                  -> rational
      NORM comp seg frac | lengths                 -> comp seg frac
      INTERP d | lengths | linework                -> x y
-     PROJ x y | lengths | linework                -> length comp seg frac d2   (or NONE)
+     PROJ x y | lengths | linework                -> length comp seg frac d2 fold   (or NONE; fold = LRFoldDefs.index_of_q)
      SUBSTR s e | lengths | linework              -> total ; line ; line ..    each line = points  x,y  separated by blanks
      MERGE d | ins | outs                         -> units nodes points
      NODE tn td | ins | outs                      -> disjoint kernel in_on_out out_near_in cover_in cover_out
@@ -62,7 +62,7 @@ let () =
             | None -> print_endline "NONE"
             | Some l ->
               let q = point_of_loc gz l in
-              print_endline (String.concat " " [string_of_q (len_of g l); show_loc l; string_of_q (qd2 (q_of_z p) q)]))
+              print_endline (String.concat " " [string_of_q (len_of g l); show_loc l; string_of_q (qd2 (q_of_z p) q); string_of_q (index_of_q g gz p)]))
          | ["SUBSTR"; s; e], [g; z] ->
            let g = lens_of g and gz = lines_of z in
            let t = total g in
